@@ -68,4 +68,5 @@ ba336bb C19 C10
 1adc0f1 C15
 82a475f C09
 c1875a2 C14
+0d81d29 C11
 LIST
